@@ -89,7 +89,7 @@ var corpus = [][]string{
 		"2.5e45", "1.5e-30", "0.00000000000000000000003", "123456789012345678901234567890123456789012.5", "1e23", "8.5e-23", "4.9e-324", "1.7976931348623157e308", "1e309", "-9223372036854775808", "18446744073709551615", "0.30000000000000004", "5e-324x", "00012.500", "1_000", "3.", "٣", "1e22", "1e-22", "0.000000000000000000000123456", "99999999999999999999.99999", "12,345,678", "1.234.567,89",
 	},
 	6: { // free text
-		"  hello \t\n world  ", "a &amp; b &#39;c&#x27; &quot;d&quot; &unknown; &lt", "text/html; charset=UTF-8; q=0.9", "data:text/plain;base64,aGVsbG8=", "data:,a%20b", "http://x/y z?q=ä&r=1", "12.5px", "1e3em", "ÀÉÎ mixed Case", "line1\nline2\r\nline3\tcol",
+		"  hello \t\n world  ", "a &amp; b &#39;c&#x27; &quot;d&quot; &unknown; &lt", "text/html; charset=UTF-8; q=0.9", "data:text/plain;base64,aGVsbG8=", "data:,a%20b", "data:;charset=utf-8,hello", "data:;charset=latin1;x=y,a", "data:;a=b,%41%42", "data:;base64;q=1,QQ==", "http://x/y z?q=ä&r=1", "12.5px", "1e3em", "ÀÉÎ mixed Case", "line1\nline2\r\nline3\tcol",
 		"first line\nsecond line é\nthird line 漢字 here\n\nfifth", "a\rb\r\nc\n\rd\u2028e\u2029f", "data:image/svg+xml;charset=utf-8,%3Csvg%3E", "DATA:;BASE64,QQ==", "application/json;charset=\"utf-8\" ; boundary=x", "&varphi;&#931;&#x3A3;&AMP&amp;amp;", "url(%E2%82%AC)?a=b&c=d#frag", "-1.5e-3% +.5E2px 100", "\t\t  \n\n x \x0c y  ", "ＡＢＣ abc ÄÖÜ äöü ß ǅ", "x\x00y\x00", "0123456789abcdefghijklmnopqrstuvwxyz0123456789ABCDEFGHIJKLMNOPQRSTUVWXYZ-_.~",
 	},
 }
